@@ -53,7 +53,15 @@ func main() {
 	tags := flag.String("tags", "", "comma separated build tags")
 	out := flag.String("out", "", "output directory")
 	baseOv := flag.String("base-overlay", "", "existing overlay (mutant) to read sources through and merge")
+	noIdx := flag.String("no-index", "", "comma separated files (relative to the repository) that get block counters only, no index recorder")
 	flag.Parse()
+	noIndex := map[string]bool{}
+	for _, f := range strings.Split(*noIdx, ",") {
+		if f != "" {
+			noIndex[f] = true
+		}
+	}
+	stages := map[string]string{}
 	if *out == "" {
 		fatal("need -out")
 	}
@@ -143,11 +151,110 @@ func main() {
 				siteTable = append(siteTable, fmt.Sprintf("%s:%d:%d %s", filepath.Join(rel, name), pos.Line, pos.Column, kind))
 				site++
 			}
+			// X[T] in a TYPE position (generic instantiation: atomic.Pointer[T], a field or
+			// variable type, a composite-literal type, f[T](...)) parses as an IndexExpr too;
+			// those must not be wrapped.
+			typePos := map[ast.Node]bool{}
+			var markType func(e ast.Expr)
+			markType = func(e ast.Expr) {
+				switch x := e.(type) {
+				case nil:
+				case *ast.IndexExpr:
+					typePos[x] = true
+					markType(x.X)
+					markType(x.Index)
+				case *ast.IndexListExpr:
+					typePos[x] = true
+				case *ast.StarExpr:
+					markType(x.X)
+				case *ast.ParenExpr:
+					markType(x.X)
+				case *ast.ArrayType:
+					markType(x.Elt)
+				case *ast.MapType:
+					markType(x.Key)
+					markType(x.Value)
+				case *ast.ChanType:
+					markType(x.Value)
+				case *ast.Ellipsis:
+					markType(x.Elt)
+				case *ast.FuncType:
+					for _, fl := range []*ast.FieldList{x.TypeParams, x.Params, x.Results} {
+						if fl != nil {
+							for _, fd := range fl.List {
+								markType(fd.Type)
+							}
+						}
+					}
+				case *ast.StructType:
+					for _, fd := range x.Fields.List {
+						markType(fd.Type)
+					}
+				}
+			}
+			looksLikeType := func(e ast.Expr) bool {
+				switch x := e.(type) {
+				case *ast.StarExpr, *ast.ArrayType, *ast.MapType, *ast.ChanType, *ast.FuncType, *ast.StructType, *ast.InterfaceType:
+					return true
+				case *ast.Ident:
+					switch x.Name {
+					case "bool", "byte", "rune", "string", "error", "any", "int", "int8", "int16", "int32", "int64", "uint", "uint8", "uint16", "uint32", "uint64", "uintptr", "float32", "float64":
+						return true
+					}
+					return x.Obj != nil && x.Obj.Kind == ast.Typ
+				case *ast.SelectorExpr:
+					// pkg.Name with an exported, capitalised name: a type of another package
+					if id, ok := x.X.(*ast.Ident); ok && id.Obj == nil && ast.IsExported(x.Sel.Name) {
+						return true
+					}
+				}
+				return false
+			}
+			ast.Inspect(f, func(n ast.Node) bool {
+				switch x := n.(type) {
+				case *ast.Field:
+					markType(x.Type)
+				case *ast.ValueSpec:
+					markType(x.Type)
+				case *ast.TypeSpec:
+					markType(x.Type)
+				case *ast.CompositeLit:
+					markType(x.Type)
+				case *ast.TypeAssertExpr:
+					markType(x.Type)
+				case *ast.CallExpr:
+					// generic function instantiation f[T](...) / conversion T[U](x)
+					if ix, ok := x.Fun.(*ast.IndexExpr); ok && looksLikeType(ix.Index) {
+						typePos[ix] = true
+					}
+					if ix, ok := x.Fun.(*ast.IndexListExpr); ok {
+						typePos[ix] = true
+					}
+					// new(T[U]), make(T[U], ...)
+					if id, ok := x.Fun.(*ast.Ident); ok && (id.Name == "new" || id.Name == "make") && len(x.Args) > 0 {
+						markType(x.Args[0])
+					}
+				case *ast.IndexExpr:
+					if looksLikeType(x.Index) {
+						typePos[x] = true
+					}
+				}
+				return true
+			})
+			if noIndex[filepath.Join(rel, name)] {
+				typePos = nil // index recorder disabled for this file (fallback of the driver)
+			}
 			ast.Inspect(f, func(n ast.Node) bool {
 				switch x := n.(type) {
 				case *ast.IndexExpr:
+					if typePos == nil || typePos[x] {
+						return true
+					}
 					wrap(x.Index, "index")
 				case *ast.SliceExpr:
+					if typePos == nil {
+						return true
+					}
 					wrap(x.Low, "slice-low")
 					wrap(x.High, "slice-high")
 					wrap(x.Max, "slice-max")
@@ -180,6 +287,8 @@ func main() {
 			}
 			// cover rewrites //line-less output; make positions refer to the original name
 			ov.Replace[orig] = stage2
+			stages[filepath.Base(stage1)] = filepath.Join(rel, name)
+			stages[filepath.Base(stage2)] = filepath.Join(rel, name)
 			// 3. registry entry with function ranges
 			var frs []funcRange
 			for _, d := range f.Decls {
@@ -213,6 +322,8 @@ func main() {
 	exPath := filepath.Join(*out, "export.go")
 	must(os.WriteFile(exPath, []byte(exportSrc), 0o644))
 	ov.Replace[filepath.Join(*repo, "zz_verif_instr_export.go")] = exPath
+	sg, _ := json.Marshal(stages)
+	must(os.WriteFile(filepath.Join(*out, "stages.json"), sg, 0o644))
 	st, _ := json.Marshal(siteTable)
 	must(os.WriteFile(filepath.Join(*out, "sites.json"), st, 0o644))
 	b, _ := json.MarshalIndent(ov, "", " ")
